@@ -23,7 +23,8 @@ from sfc_models.sector import Sector
 TARGET = "x = 0.5*LX + G\nd = x + G\nLX = x(k-1)\nMaxTime = 2\nErr_Tolerance = 0.01"
 TARGET_FN = "x = 0.5*LX + fn(G)\nd = fn(x)\nLX = x(k-1)\nMaxTime = 2\nErr_Tolerance = 0.01"
 TARGET_SS = "x = G\nd = x + LX\nLX = x(k-1)\nMaxTime = 2\nErr_Tolerance = 0.01"
-TARGETS = {"plain": (TARGET, {}), "user-function": (TARGET_FN, {"fn": lambda v: 2 * v + 1}), "steady-state-init": (TARGET_SS, {})}
+TARGET_DF = "x = 0.5*LX + G\np = x\na = p\ns = a\nd = 0.5*a + 1\nLX = x(k-1)\nMaxTime = 2\nErr_Tolerance = 0.01"      # dependents set aside before the alias they use
+TARGETS = {"plain": (TARGET, {}), "dependent-first-decoratives": (TARGET_DF, {}), "user-function": (TARGET_FN, {"fn": lambda v: 2 * v + 1}), "steady-state-init": (TARGET_SS, {})}
 OTHER_FN = "a = 0.5*a + fn(3)\nb = a + y\ny = 2\nx = 7\nMaxTime = 2"
 OTHER = "a = 0.5*a + 3\nb = a + y\ny = 2\nx = 7\nMaxTime = 2"
 OTHER_LONG = "a = 0.5*a + 3\nb = a + y\ny = 2\nx = 7\nMaxTime = 4"       # previous block with a longer / shorter horizon than the target block
@@ -191,6 +192,7 @@ def histories(tier):
     items = [(h, 'plain') for h in out]
     items += [(h, 'user-function') for h in out if len(h) <= (1 if tier == 'quick' else 2)]
     items += [(h, 'steady-state-init') for h in out if len(h) <= (1 if tier == 'quick' else 2)]
+    items += [(h, 'dependent-first-decoratives') for h in out if len(h) <= (1 if tier == 'quick' else 2)]
     return items
 
 
